@@ -520,8 +520,8 @@ def model_lines_c18(run, opt):
     _, flat = parse_cap(run.cap)
     ft = flat_totals(flat)
     lines = ["tree fixed %d %d %d %s" % (run.start_clock, run.rootpos[0], run.rootpos[1], " ".join(model_tree_tokens(run.cap))),
-             "rec %d %d %d %d %d" % tuple(opt), "leaves", "flat"]
-    exp = ["ok %d true" % len(flat), fmt_root(run),
+             "rec %d %d %d %d %d" % tuple(opt), "tot", "leaves", "flat"]
+    exp = ["ok %d true" % len(flat), fmt_root(run), "tot " + " ".join(map(str, stat_edge_totals(run.stat))),
            "leaves " + " ".join("%d %d %d" % (d["est"], d["inek"], d["frt"]) for d in flat),
            "flat %d %d %s %s" % (ft["work"], ft["span"], " ".join(map(str, ft["nc"])), " ".join(map(str, ft["ec"])))]
     return lines, exp
@@ -636,6 +636,7 @@ def campaign(res, want, nprog, corpus_dir, model_lines, oracle):
     hist = {"family": {}, "intervals": {}, "create_depth": {}, "section_nest": {}, "max_fanout": {}, "sched": {}, "wmode": {},
             "nworkers": {}, "nfiles": {}, "materialized_ratio": {}, "policy": {}}
     seen, nontriv = set(), 0
+    grid_ref = {}
     first_bad, first_diff = None, None
     agree = disagree = 0
     batch_lines, batch_exp, batch_case = [], [], []
@@ -681,6 +682,15 @@ def campaign(res, want, nprog, corpus_dir, model_lines, oracle):
             nontriv += 1
         seen.add(h)
         bad = oracle(run)
+        if "C18" in want and not run.crash:
+            # the stamp-independent totals must be equal across the whole option grid of one program
+            sig = (run.root[14:23], [run.stat[k] for k in ("create_task", "wait_tasks", "end_task", "dag nodes")],
+                   stat_edge_totals(run.stat), stat_edge_totals(run.stat_s))
+            key = tuple(c.toks)
+            if key in grid_ref and grid_ref[key][0] != sig:
+                bad = bad + ["interval / edge totals differ across contraction settings of the same program: %s under %s vs %s under %s"
+                             % (grid_ref[key][0], grid_ref[key][1], sig, c.opt)]
+            grid_ref.setdefault(key, (sig, c.opt))
         if bad and first_bad is None:
             first_bad = (c, bad)
         if run.crash:
@@ -801,7 +811,11 @@ WF_OK = "wf true offsets=true edgeEnds=true grouped=true counted=true strings=tr
 def model_lines_c19(run, opt, sopt):
     lines = ["tree fixed %d %d %d %s" % (run.start_clock, run.rootpos[0], run.rootpos[1], " ".join(model_tree_tokens(run.cap))),
              "rec %d %d %d %d %d" % tuple(opt), "dag %d" % run.nworkers, "wf G", "replay G", "stat G",
-             "shrink %d %d %d" % tuple(sopt), "wf H", "replay H", "stat H"]
+             "shrink %d %d %d" % tuple(sopt), "wf H", "replay H", "stat H",
+             # the verified checker on the arrays the implementation re-read from the dumped file (independent of `flatten`)
+             "load " + fmt_dag(run.dags["file"]), "wf G", "dag-echo"]
+    f = run.dags["file"]
     exp = [None, fmt_root(run), fmt_dag(run.dags["mem"]), WF_OK, fmt_replay(run.replay["mem"]), fmt_stat(run.stat, run.nworkers),
-           fmt_dag(run.dags["shr"]), WF_OK, fmt_replay(run.replay["shr"]), fmt_stat(run.stat_s, run.nworkers)]
+           fmt_dag(run.dags["shr"]), WF_OK, fmt_replay(run.replay["shr"]), fmt_stat(run.stat_s, run.nworkers),
+           "loaded %d %d %d" % (f["n"], f["m"], f["ns"]), WF_OK, fmt_dag(f)]
     return lines, exp
